@@ -8,9 +8,11 @@ package main
 //	                     then "|buf=<hex>" (what stays in the connection buffer) or "|err <reason>" (disconnect)
 //	conv HEX             real gnet.convertToMessage on one frame (the 12 daemon messages registered):
 //	                     "ok <GoType> <value dump>" or "err <disconnect reason>"
-//	pool MAX c1,c2,…     (thorough) the same reads written to a net.Pipe served by a real ConnectionPool
-//	                     (handleConnection: readLoop + receiveMessage goroutines); test messages registered under
-//	                     their own ids record what the handler sees, in order
+//	recv MAX c1,c2,…     the same scripted reads served by a real ConnectionPool (handleConnection: readLoop + the
+//	                     receiveMessage goroutine + convertToMessage + the REAL daemon messages' Handle, which queue
+//	                     the message for the daemon's event loop); only once the whole burst has been queued are the
+//	                     queued messages looked at (re-encoded), as the daemon's event loop may: "+"-joined hex of
+//	                     the frames they stand for, then "|end=idle" or "|end=err <reason>"
 //
 // The Lean driver (Sky/C22/Drv.lean) answers from Sky.C22.Model with the regenerated message table.
 
@@ -219,6 +221,97 @@ func execReadLoop(max int, chunks [][]byte) string {
 	return fs + "|late=" + strconv.Itoa(late) + "|end=" + end
 }
 
+// execRecv serves the scripted connection with a real ConnectionPool whose message state is a Daemon reduced to
+// its event queue. The daemon's event loop is the consumer of that queue and may run arbitrarily later than the
+// receive path, so the queued messages are looked at only after the whole burst has been received.
+func execRecv(max int, chunks [][]byte) string {
+	want := 0
+	var all []byte
+	for _, c := range chunks {
+		all = append(all, c...)
+	}
+	for o := 0; o+4 <= len(all); {
+		l := int(uint32(all[o]) | uint32(all[o+1])<<8 | uint32(all[o+2])<<16 | uint32(all[o+3])<<24)
+		if l < 4 || l > max || o+4+l > len(all) {
+			break
+		}
+		if string(all[o+4:o+8]) != "PONG" { // PongMessage.Handle queues nothing
+			want++
+		}
+		o += 4 + l
+	}
+	rec := daemon.VerifNewRecorder(64)
+	cfg := gnet.NewConfig()
+	cfg.MaxIncomingMessageLength = max
+	cfg.ReadTimeout = 0
+	pool, err := gnet.NewConnectionPool(cfg, rec.State())
+	if err != nil {
+		panic("harness: NewConnectionPool: " + err.Error())
+	}
+	go pool.RunOffline() //nolint:errcheck
+	sc := &scriptConn{chunks: chunks, idle: make(chan struct{}), closed: make(chan struct{})}
+	done := make(chan error, 1)
+	go func() {
+		defer func() {
+			if r := recover(); r != nil {
+				done <- fmt.Errorf("panic: %v", r)
+			}
+		}()
+		done <- pool.VerifHandleConnection(sc)
+	}()
+	var endErr error
+	ended := false
+	deadline := time.Now().Add(20 * time.Second)
+	for rec.Len() < want && !ended {
+		select {
+		case endErr = <-done:
+			ended = true
+		case <-time.After(200 * time.Microsecond):
+		}
+		if time.Now().After(deadline) {
+			break
+		}
+	}
+	if !ended {
+		// everything expected is queued; give an unexpected extra delivery or a failure the chance to show
+		select {
+		case endErr = <-done:
+			ended = true
+		case <-sc.idle:
+		case <-time.After(20 * time.Second):
+		}
+	}
+	ms := rec.Drain()
+	pool.Shutdown()
+	if !ended {
+		select {
+		case <-done:
+		case <-time.After(20 * time.Second):
+			return "hang"
+		}
+	}
+	if endErr != nil && strings.HasPrefix(endErr.Error(), "panic: ") {
+		return endErr.Error()
+	}
+	var fs []string
+	for _, m := range ms {
+		b, err := gnet.EncodeMessage(m)
+		if err != nil {
+			fs = append(fs, "unencodable:"+err.Error())
+			continue
+		}
+		fs = append(fs, Hex(b[4:]))
+	}
+	out := "."
+	if len(fs) > 0 {
+		out = strings.Join(fs, "+")
+	}
+	if ended {
+		return out + "|end=err " + ErrName(endErr, reasons)
+	}
+	return out + "|end=idle"
+}
+
 func execConv(b []byte) string {
 	m, err := gnet.VerifConvertToMessage(1, b)
 	if err != nil {
@@ -236,6 +329,8 @@ func c22Exec(op string) string {
 		return execConv(ParseBytes(f[1]))
 	case "readloop":
 		return execReadLoop(int(PI64(f[1])), parseChunks(f[2]))
+	case "recv":
+		return execRecv(int(PI64(f[1])), parseChunks(f[2]))
 	}
 	panic("harness: unknown op " + f[0])
 }
@@ -409,6 +504,23 @@ func c22Gen(r *Rng, tier string, emit func(string)) {
 			}
 			tail := randomMessage(r)
 			rl(cutAt(append(append([]byte{}, long...), tail[:r.Intn(len(tail))]...), randomCuts(r, len(long), r.Range(0, 3))))
+			// the whole receive path with the real daemon handlers, which keep the message for the event loop: a burst
+			// must be delivered as sent even when nothing has been processed yet
+			rv := func(cs [][]byte) { emit("recv " + strconv.Itoa(defMax) + " " + chunkStr(cs)) }
+			rv([][]byte{long})
+			rv(cutAt(long, randomCuts(r, len(long), r.Range(1, 6))))
+			// a burst of messages of one type
+			var burst []byte
+			first := randomMessage(r)
+			burst = append(burst, first...)
+			for n, nb := 1, r.Range(2, 12); n < nb; {
+				if m := randomMessage(r); bytes.Equal(m[4:8], first[4:8]) {
+					burst = append(burst, m...)
+					n++
+				}
+			}
+			rv([][]byte{burst})
+			rv(cutAt(burst, randomCuts(r, len(burst), r.Range(1, 4))))
 		}
 		// a bad length prefix spliced in after the k-th message
 		k := r.Intn(nm + 1)
